@@ -299,7 +299,7 @@ class RunoutMonitor(Monitor):
 
 
 def make_monitors():
-    return [driver.Observer(0.1), RunoutMonitor()]
+    return [driver.Observer(0.1), driver.KnownCardsRule(), RunoutMonitor()]
 
 
 def gen_kwargs(rng):
